@@ -20,6 +20,33 @@ open PromVerif.Py PromVerif.Model.Registry PromVerif.Spec.Registry
 /-- the extractor found `type_suffixes` and the loop applying it in the shape it understands -/
 theorem extract_ok : PromVerif.Generated.Registry.extractOk = true := by decide
 
+/-- **The decision structure of registry.py is the one the theorems below are about** (T1): `register` tests all names
+and raises before any store; `set_target_info` tests `not previous and 'target_info' claimed`, raises before it assigns
+`_target_info`, pops the reservation only when target info was configured; `unregister` deletes each recorded name of
+the collector; `collect` snapshots under the lock and yields target info first; `_get_names` prefers `describe` and falls
+back to `collect` under auto-describe; `RestrictedRegistry.collect` resolves the names under the registry lock into a set,
+yields target info only when requested and configured, filters through `_restricted_metric` and drops empty results.
+`Model/Registry.lean` consults every one of these flags; the lemmas `register_eq`, `setTargetInfo_eq`, `unregister_eq`,
+`getNames_eq`, `collect_eq`, `restrictedCollect_eq`, `collAdd_eq` (Lemmas/Registry.lean) reduce the model to its reference
+body by `decide` on them, and every theorem about these functions goes through those lemmas. -/
+theorem registry_shape_ok :
+    PromVerif.Generated.Registry.registerChecksAllBeforeStore = true ∧
+    PromVerif.Generated.Registry.setTargetInfoStoresAfterCheck = true ∧
+    PromVerif.Generated.Registry.setTargetInfoClashNegatesPrevious = true ∧
+    PromVerif.Generated.Registry.setTargetInfoClashIsConjunction = true ∧
+    PromVerif.Generated.Registry.setTargetInfoClearsOnlyWhenPreviouslySet = true ∧
+    PromVerif.Generated.Registry.unregisterTakesRecordedNames = true ∧
+    PromVerif.Generated.Registry.unregisterDeletesEachName = true ∧
+    PromVerif.Generated.Registry.collectSnapshotsUnderLock = true ∧
+    PromVerif.Generated.Registry.collectTargetInfoFirst = true ∧
+    PromVerif.Generated.Registry.getNamesAutoDescribeFallback = true ∧
+    PromVerif.Generated.Registry.restrictedResolvesUnderLock = true ∧
+    PromVerif.Generated.Registry.restrictedCollectorsIsSet = true ∧
+    PromVerif.Generated.Registry.restrictedTargetInfoNeedsRequested = true ∧
+    PromVerif.Generated.Registry.restrictedTargetInfoNeedsConfigured = true ∧
+    PromVerif.Generated.Registry.restrictedFiltersAndDropsEmpty = true :=
+  PromVerif.Model.Registry.registry_shape_ok
+
 /-! ### the suffix table -/
 
 /-- **The table in the source is the table of the property statement**: for every metric type, the suffixes
@@ -179,7 +206,7 @@ theorem targetinfo_raises_iff_clash {s : State} (hi : Inv s) (l : Option Labels)
       · rw [hf] at ht; cases ht
     · rintro ⟨hf, c, ns, hm, hn⟩
       exact ⟨Or.inl ⟨c, ns, hm, hn⟩, hf⟩
-  unfold setTargetInfo
+  rw [setTargetInfo_eq]
   by_cases hl : truthy l = true
   · simp only [hl, if_true, true_and]
     rw [← key]
@@ -191,7 +218,7 @@ theorem targetinfo_raises_iff_clash {s : State} (hi : Inv s) (l : Option Labels)
 /-- **A target-info change that raises leaves the registry exactly as it was.** -/
 theorem targetinfo_clash_is_frame (s : State) (l : Option Labels) (h : (setTargetInfo s l).2 ≠ none) :
     (setTargetInfo s l).1 = s := by
-  unfold setTargetInfo at h ⊢
+  rw [setTargetInfo_eq] at h ⊢
   split
   · split
     · rfl
@@ -310,6 +337,42 @@ example :
     (unregister (register (init false none) f6Collector).1 f6Collector).2 = none ∧
     (unregister (register (init false none) f6Collector).1 f6Collector).1 = init false none ∧
     (register (unregister (register (init false none) f6Collector).1 f6Collector).1 f6Other).2 = none := by
+  decide
+
+/-! ### the model follows the code: the two recognised other shapes violate the frame clause -/
+
+/-- describes a gauge `x_total` -/
+private def incHeld : Collector := ⟨1, some [(['x', '_', 't', 'o', 't', 'a', 'l'], .gauge)], []⟩
+/-- describes a counter `x`: claims x (free), x_total (held by `incHeld`), x_created -/
+private def incNew : Collector := ⟨0, some [(['x'], .counter)], []⟩
+
+/-- **What the model does on a tree whose `register` tests and stores name by name** (T1 flag
+`registerChecksAllBeforeStore = false` selects `registerIncremental`): the rejected registration has already inserted the
+names before the clashing one — `x` stays claimed by a collector that is not registered, so nothing can release it. The
+frame statement `register_clash_is_frame` is FALSE of that model; on the present tree `register = registerAtomic`
+(`register_eq`). -/
+theorem incremental_register_breaks_frame :
+    (registerIncremental (register (init false none) incHeld).1 incNew).2 = some .valueError ∧
+    (registerIncremental (register (init false none) incHeld).1 incNew).1 ≠ (register (init false none) incHeld).1 ∧
+    dGet ['x'] (registerIncremental (register (init false none) incHeld).1 incNew).1.namesToCollectors
+      = some (Owner.coll incNew) ∧
+    dGet incNew (registerIncremental (register (init false none) incHeld).1 incNew).1.collectorToNames = none := by
+  decide
+
+/-- **What the model does on a tree whose `set_target_info` assigns `_target_info` before the clash test** (T1 flag
+`setTargetInfoStoresAfterCheck = false`): the rejected call raises `ValueError` and leaves the NEW labels configured while
+`target_info` is still owned by the registered collector (so `collect()` yields `target_info` twice).  The frame statement
+`targetinfo_clash_is_frame` is FALSE of that model; on the present tree `setTargetInfo = setTargetInfoWith true`. -/
+theorem store_first_set_target_info_breaks_frame :
+    (setTargetInfoWith false (register (init false none) exT).1 (some [(['a'], ['b'])])).2 = some .valueError ∧
+    (setTargetInfoWith false (register (init false none) exT).1 (some [(['a'], ['b'])])).1
+      ≠ (register (init false none) exT).1 ∧
+    (setTargetInfoWith false (register (init false none) exT).1 (some [(['a'], ['b'])])).1.targetInfo
+      = some [(['a'], ['b'])] ∧
+    dGet tiName (setTargetInfoWith false (register (init false none) exT).1 (some [(['a'], ['b'])])).1.namesToCollectors
+      = some (Owner.coll exT) ∧
+    -- the same call on the code as written is a frame
+    (setTargetInfoWith true (register (init false none) exT).1 (some [(['a'], ['b'])])).1 = (register (init false none) exT).1 := by
   decide
 
 /-! ### the frame clause for the two other ways in: self-registering constructors and caller-owned dicts -/
